@@ -21,7 +21,7 @@
                  (labels the evaluator model ends with on the probe ids))        *)
 From Coq Require Import ZArith NArith List Bool Arith FMapPositive.
 From Mpc Require Import Gen.Consts Base.Sx Base.Label Base.Aes Base.Codec Circuit.Circuit Circuit.Garble
-     Circuit.RunC01 Lang.Gc Proto.Stream.
+     Circuit.RunC01 Lang.Gc Lang.Hashtab Proto.Stream.
 Import ListNotations.
 Local Open Scope nat_scope.
 
@@ -269,9 +269,33 @@ Definition run_direct (inp : sx) : sx :=
         ofLN (map (fun id => eget es false id) probes)]
   else sx_err 4.
 
+(* ---- kind 2: the wire allocator's value table (hash chains)
+   input  = (2 ((key bucket)...) ((opcode key)...))   opcode 0 = Allocated (lookup),
+            1 = AssignedIDs (lookup, insert when absent), 2 = GCWires (remove);
+            bucket = the real walloc.hashCode of the value
+   output = (0 ((present (chain keys, head first))...))  per operation: was the
+            value in the table before the operation, and the keys chained in its
+            bucket after the operation *)
+Definition run_walloc (inp : sx) : sx :=
+  let hm := map (fun q => (getN (nthx 0 q), getnat (nthx 1 q))) (getL (nthx 1 inp)) in
+  let hash := fun k => match lookup k hm with Some b => b | None => 0 end in
+  let ops := getL (nthx 2 inp) in
+  let '(outs, _) :=
+    fold_left (fun (acc : list sx * table N) (o : sx) =>
+                 let '(outs, t) := acc in
+                 let k := getN (nthx 1 o) in
+                 let present := match find_pos N k (bucket N t (hash k)) 0 with Some _ => true | None => false end in
+                 let op := getZ (nthx 0 o) in
+                 let hop := if Z.eqb op 0 then HLookup k else if Z.eqb op 1 then HAlloc k k else HGc k in
+                 let '(_, t') := chain_step N hash hop t in
+                 (SL [ofB present; ofLN (map fst (bucket N t' (hash k)))] :: outs, t'))
+              ops ([], []) in
+  SL [SZ 0; SL (rev outs)].
+
 (* the code as it is NOW *)
 Definition run_c05 (inp : sx) : sx :=
-  if Z.eqb (getZ (nthx 0 inp)) 1 then run_prog gc_now inp else run_direct inp.
+  if Z.eqb (getZ (nthx 0 inp)) 1 then run_prog gc_now inp
+  else if Z.eqb (getZ (nthx 0 inp)) 2 then run_walloc inp else run_direct inp.
 
 (* the pre-fix variant (Program.GC before d266b2f/f274b03), kept as a
    regression record: it reproduces the wrong streamed values of finding F3 *)
